@@ -37,7 +37,8 @@ func TestC15(t *testing.T) {
 	oddRes := []int64{0, 1, 299999, 300000, 300001, 3599999, 3600000, 3600001, 2000000000}
 	units := []int64{1, 1000, 7200000}
 	bases := func(u int64) int64 {
-		return []int64{0, 1000000000, -3 * u, 7} // TLC integers are 32 bit: keep every timestamp below 2^31[rnd.Intn(4)]
+		// TLC integers are 32 bit: keep every timestamp below 2^31
+		return []int64{0, 1000000000, -3 * u, 7}[rnd.Intn(4)]
 	}
 	offGrid := func(c vt.Case, g int, n int) [][]int64 {
 		u, b := vt.Int64(c["unit"]), vt.Int64(c["base"])
